@@ -62,6 +62,10 @@ checks = {
  "C19": dict(cat="model_checking", ref="§8 C19", technique="symbolic execution of TemplateGenFromString/TsGenFromString with a symbolic fault flag at the entry of every input-dependent step and event-recorder models of the file operations; native CLI runs with a pre-existing file as confirmation",
    text="Fault points become solver variables: each step of the two generation entry points that can fail because of the input may raise a panic under a symbolic flag; the recorded file events must show no create/write before a failure and a complete create-write-close sequence on success (TS: epilogue written last). Real input-caused failures are additionally run in the engine and through the natively built CLI with byte comparison of a pre-existing file.",
    note="Trusted base: gosym, the event-recorder models of os.Create/WriteString/Close/template.Execute, the list of fault sites in tool/checks/c19.go (a renamed step is reported as inconclusive). File-system failures are outside the claim."),
+
+ "C10": dict(cat="model_checking", ref="§8 C10", technique="symbolic execution of Lex (coroutine) + Parse + RootVistor.Process on renderings of corpus specifications with symbolic whitespace / comment bodies / optional ';' at each lexical gap; comparison with tables generated from the specification",
+   text="The real lexer, grammar-file parser and declaration/rule visitors run in the engine on the canonical rendering of each corpus specification and on renderings with unconstrained whitespace bytes, comments with unconstrained ASCII bodies or optional ';' inserted at one lexical gap; the rules (symbols, %prec, action text), start symbol, token numbers, tags, precedence levels, prologue, %union body and epilogue that yaccgo will work on must equal the specification on every path.",
+   note="Trusted base: gosym (coroutine model, ASCII models of utf8/unicode), the expectation tables generated by tool/checks/c10.go from the corpus specification. One gap at a time; layout inside code bodies is content, not layout."),
 }
 
 na = {
